@@ -437,6 +437,12 @@ func (c *FCGIClient) Request(p map[string]string, req io.Reader) (resp *http.Res
 		if err != nil {
 			return
 		}
+		// the responder is not trusted: net/http panics on status
+		// codes outside this range when the header is written
+		if resp.StatusCode < 100 || resp.StatusCode > 999 {
+			err = errors.New("fcgi: invalid status code " + statusParts[0] + " in response")
+			return
+		}
 		if len(statusParts) > 1 {
 			resp.Status = statusParts[1]
 		}
